@@ -31,7 +31,36 @@ def pid_alive(pid):
         return False
 
 
-def run_real(sc, base, timeout=2, fork_on_hang=False, passes=None, mode='each'):
+class SlowPutQueue:
+    """the manager's queue as the workers see it when the registration message takes a while to get through (a loaded
+    machine, the first use of the connection in a fresh worker): STARTED events are delayed, everything else is passed on"""
+
+    def __init__(self, q, delay):
+        self.q, self.delay = q, delay
+
+    def put(self, ev):
+        if getattr(getattr(ev, 'type', None), 'name', '') == 'STARTED':
+            time.sleep(self.delay)
+        self.q.put(ev)
+
+    def get(self):
+        return self.q.get()
+
+    def empty(self):
+        return self.q.empty()
+
+
+def slow_manager(real_manager, delay):
+    class M:
+        def __init__(self):
+            self.m = real_manager()
+
+        def Queue(self):
+            return SlowPutQueue(self.m.Queue(), delay)
+    return M
+
+
+def run_real(sc, base, timeout=2, fork_on_hang=False, passes=None, mode='each', slow_registration=None):
     from cvise.utils import testing, statistics
     from cvise.cvise import CVise
 
@@ -67,6 +96,9 @@ def run_real(sc, base, timeout=2, fork_on_hang=False, passes=None, mode='each'):
     logging.disable(logging.CRITICAL)
     o.before = snapshot_dir(work)
     t0 = time.time()
+    real_manager = testing.Manager
+    if slow_registration:
+        testing.Manager = slow_manager(real_manager, slow_registration)
     try:
         stats = statistics.PassStatistic()
         tm = testing.TestManager(stats, script, timeout, cfg['save_temps'], names, cfg['N'], cfg['no_cache'], True,
@@ -108,6 +140,7 @@ def run_real(sc, base, timeout=2, fork_on_hang=False, passes=None, mode='each'):
                 break
         o.stats = stats
     finally:
+        testing.Manager = real_manager
         o.wall = time.time() - t0
         os.chdir(old_cwd)
         tempfile.tempdir = old_tmp
